@@ -554,3 +554,88 @@ def bounded_inputs(unit_name, rng):
                                    "has_min": bits[0], "has_max": bits[1], "has_mean": bits[2]}
         for data in itertools.product(vals, repeat=2):
             yield {"old": [], "data": list(data), "exists": False}
+
+
+# --------------------------------------------------------------------------
+# always-on bounded layer: summaries of scalar features obtained through a mapped basin
+# --------------------------------------------------------------------------
+def _proxy_summaries():
+    """BasinProxyFeature.min/max/mean == NaN-ignoring summary of origin[basinmap], for maps that repeat, skip
+    and permute events (also maps that are as long as the origin)"""
+    import numpy as np
+    from dclab.rtdc_dataset.feat_basin import BasinProxyFeature
+
+    class Origin:
+        """a scalar feature object with stored summaries (like H5ScalarEvent)"""
+        def __init__(self, a):
+            self._a, self.shape, self.dtype = a, a.shape, a.dtype
+
+        def __getitem__(self, k):
+            return self._a[k]
+
+        def __len__(self):
+            return len(self._a)
+
+        def __array__(self, *a, **k):
+            return self._a
+
+        def min(self):
+            return np.nanmin(self._a)
+
+        def max(self):
+            return np.nanmax(self._a)
+
+        def mean(self):
+            return np.nanmean(self._a)
+    rng = np.random.default_rng(11)
+    for trial in range(30):
+        n = int(rng.integers(3, 12))
+        a = rng.uniform(0, 1, n)
+        if trial % 3 == 0:
+            a[rng.integers(0, n)] = np.nan
+        a[0], a[-1] = -5.0, 9.0                      # the extremes sit at the ends
+        maps = [rng.integers(1, n - 1, n), rng.permutation(n)[:max(1, n // 2)], rng.integers(0, n, n + 3)]
+        for bm in maps:
+            bm = np.asarray(bm, dtype=np.uint64)
+            want = a[bm.astype(int)]
+            if np.all(np.isnan(want)):
+                continue
+            import tempfile, pathlib, h5py
+            from dclab.rtdc_dataset.fmt_hdf5.events import H5ScalarEvent
+            with tempfile.TemporaryDirectory(prefix="c20p_") as td, h5py.File(pathlib.Path(td) / "o.h5", "w") as h5:
+                dset = h5.create_dataset("feat", data=a)
+                dset.attrs["min"], dset.attrs["max"], dset.attrs["mean"] = np.nanmin(a), np.nanmax(a), np.nanmean(a)
+                msg = _proxy_case(a, bm, want, (a, Origin(a), H5ScalarEvent(dset)))
+            if msg:
+                return msg
+    return None
+
+
+def _proxy_case(a, bm, want, origins):
+    import numpy as np
+    from dclab.rtdc_dataset.feat_basin import BasinProxyFeature
+    for origin in origins:
+        pf = BasinProxyFeature(feat_obj=origin, basinmap=bm)
+        for key, fn in (("min", np.nanmin), ("max", np.nanmax), ("mean", np.nanmean)):
+            got = getattr(pf, key)()
+            if not _close(float(got), float(fn(want))):
+                return (f"scalar feature ({type(origin).__name__}) through a mapped basin: {key}() == {float(got)}, the mapped "
+                        f"values {want.tolist()} (origin {a.tolist()}, map {bm.tolist()}) give {float(fn(want))}")
+    return None
+
+
+def extra_checks(run):
+    import json as _json
+    from pyvc.run import HERE
+    msg = _proxy_summaries()
+    run.extra.setdefault("bounded_standins", []).append(
+        {"function": "BasinProxyFeature.min / max / mean", "tool": "native comparison with the NaN-ignoring summary of "
+         "origin[basinmap] (labelled bounded)", "cases": 30 * 3 * 2 * 3, "bound": "random origins of 3..11 events, maps that repeat, "
+         "skip and permute events"})
+    if msg:
+        fn = HERE / "replays" / "C20-bounded-proxy-summaries.json"
+        fn.parent.mkdir(exist_ok=True)
+        fn.write_text(_json.dumps({"property": "C20", "obligation": "summaries of a mapped basin feature describe the mapped values",
+                                   "replay": {"failed": True, "detail": msg}}, indent=1))
+        print("  " + msg[:300])
+        run.violations.append(f"VIOLATION property=C20 replay={fn.relative_to(HERE)}")
